@@ -136,6 +136,44 @@ def run(shard, rec, tier, seed):
             rec.violation("hash-mismatch-on-repeat", "server_verification_hash(challenge=%d) = %r, with an int subclass %r, the client computes %d" % (c, a, b, py_oracle(c)), {"challenge": c})
             break
     rec.count("keyword-and-int-like-calls", 800)
+    # ambient numeric state of the calling thread (an application that does money arithmetic lowers the decimal
+    # precision; float formatting / rounding settings): integer arithmetic must not notice
+    import decimal
+
+    for prec, traps in ((4, True), (6, True), (3, False)):
+        with decimal.localcontext() as ctx:
+            ctx.prec = prec
+            if not traps:
+                ctx.traps[decimal.InvalidOperation] = False
+            for c in picks[:150] + [8, 117, 899999, 8999999, 11092110, min(hi - 1, 16194276)]:
+                try:
+                    got = real(c)
+                except Exception as ex:
+                    rec.violation("raises", "server_verification_hash(%d) raised %r under decimal precision %d" % (c, ex, prec), {"challenge": c})
+                    break
+                if got != py_oracle(c):
+                    rec.violation("hash-mismatch-on-repeat", "server_verification_hash(%d) = %r under decimal precision %d, the client computes %d" % (c, got, prec, py_oracle(c)), {"challenge": c})
+                    break
+    rec.count("calls-under-a-lowered-decimal-context", 3 * 156)
+    if lo == 0:
+        # the hash is a pure function: called from several threads at once (other challenges each)
+        from vf.mon import threads as thr
+
+        def work(tid, rnd):
+            r = random.Random("C11-thr-%d-%d" % (rnd, tid))
+            base = (0, 5_000_000, 11_092_000, 14_000_000)[tid % 4]
+            for _ in range(4000):
+                c = base + r.randrange(0, 200_000)
+                got = real(c)
+                if got != py_oracle(c):
+                    return [("hash-mismatch-on-repeat", "server_verification_hash(%d) = %r while other threads were hashing, the client computes %d" % (c, got, py_oracle(c)), {"challenge": c, "threads": 4})]
+            return []
+        found, errors = thr.hammer(work, 4, 2)
+        for e in errors:
+            rec.violation("raises", "a worker thread died: " + e, {"threads": 4})
+        for mech, msg, case in found[:2]:
+            rec.violation(mech, msg, case)
+        rec.count("calls-from-concurrent-threads", 4 * 2 * 4000)
     if lo == 0:
         rec.sample({"challenge": 0, "hash": real(0)})
     if lo <= 11092479 < hi:
